@@ -46,6 +46,8 @@ shape_st = st.fixed_dictionaries({
     'csv': st.sampled_from(['absent', 'rules', 'rules', 'empty']),
     'bak': st.booleans(), 'baks': st.sampled_from([[], [], ['.bak2'], ['.bak3'], ['.bak2', '.bak3'], ['.bak.old'], ['.backup']]), 'views': st.booleans(), 'notes': st.booleans(), 'gitignore': st.sampled_from([None, None, 'node_modules/\n*.pyc\n', '# mine\ndata/\n', 'output/\ndata/\n', '']), 'old_report': st.booleans(), 'data': st.booleans(),
     'crlf': st.sampled_from([False, False, True]),
+    # the state an interrupted folder-layout migration leaves: ./config still in place, data/ and output/ already under ./tally
+    'half_migrated': st.sampled_from([False, False, False, False, True]),
 })
 
 COMMANDS = [
@@ -119,10 +121,11 @@ class Folder:
             # the user's own ignore file (the folder may be inside their git repository) - wherever init would put one
             w('.gitignore', shape['gitignore'])
             self.bd.write('.gitignore', shape['gitignore'])
+        moved = 'tally/' if (shape.get('half_migrated') and shape['layout'] == 'old') else ''
         if shape['data']:
-            w('data/bank.csv', DATA_TXT)
+            w(moved + 'data/bank.csv', DATA_TXT)
         if shape['old_report']:
-            w('output/spending_summary.html', '<html>old report</html>')
+            w(moved + 'output/spending_summary.html', '<html>old report</html>')
 
     def close(self):
         self.bd.__exit__()
